@@ -827,6 +827,8 @@ def run(rep: vlib.Reporter, tier: str, seed: int) -> None:
                     "ordered request, ordering, mode)")
     for c in (ucases[:2] + [{k: v for k, v in r.items() if k in ("cfg", "hashseed", "req", "ordering", "tables", "trace")} for r in runs[100:400:100]]):
         rep.sample(c)
+    from harness import srctie      # source-text tie (Props/SrcTie.v): definitions regenerated from the source text = the models
+    found = (not srctie.check(rep)) or found
     rep.add("total_wall_s", round(time.time() - t_start, 1))
     if not pr.ok and not found:
         rep.finding("proof-broken", "Props/C03.v no longer checks",
@@ -888,6 +890,9 @@ def replay_obj(c: dict) -> dict:
 def replay(path: str) -> int:
     r = json.load(open(path))["replay"]
     print(json.dumps(r, indent=1)[:3000])
+    if r.get("kind") == "srctie":
+        from harness import srctie
+        srctie.replay(r)
     if r.get("kind") == "e2e" and "cfg" in r:
         cfg = {c["id"]: c for c in CONFIGS}[r["cfg"]]
         job = {"universe": UNIVERSE, "config": {k: cfg[k] for k in ("fw", "links", "filters")}, "cases": [[r["req"], r["ordering"]]]}
